@@ -126,6 +126,16 @@ func genC02(g *genCtx) {
 		d := pool[r.intn(len(pool))]
 		g.add(&Case{Kind: "sel", Doc: d, Ctx: pickNodeCtx(r, d), Expr: genFilteredPath(r, r.intn(3))})
 	}
+	// not() of numbers and strings (count, string-length, local-name, string of a path …), and node-sets in either
+	// argument position of contains / starts-with / ends-with
+	for i := 0; i < g.scale(3000, 30000); i++ {
+		d := pool[r.intn(len(pool))]
+		p1, p2 := genFlatPath(r), genFlatPath(r)
+		pr := r.pick([]string{"not(count(" + p1 + "))", "not(string-length(" + p1 + "))", "not(local-name(" + p1 + "))", "not(string(" + p1 + "))", "not(not(count(" + p1 + ")))", "not(0)", "not('')", "not(1) or " + p1,
+			"not(count(" + p1 + ") - 1)", "not(concat(" + p1 + ", ''))", "contains(" + p1 + ", " + p2 + ")", "starts-with(" + p1 + ", " + p2 + ")", "ends-with(" + p1 + ", " + p2 + ")", "contains('1x2', " + p2 + ")",
+			"starts-with(string(" + p1 + "), " + p2 + ")", "not(contains(" + p1 + ", " + p2 + "))", "contains(" + p1 + ", " + p2 + ") and not(count(" + p2 + "))"})
+		g.add(&Case{Kind: "sel", Doc: d, Ctx: pickNodeCtx(r, d), Expr: r.pick([]string{"//*", "*", "//a", "descendant::*"}) + "[" + pr + "]"})
+	}
 	// predicates whose first operand walks the context node away: the second operand belongs to the same candidate
 	for i := 0; i < g.scale(3000, 30000); i++ {
 		d := pool[r.intn(len(pool))]
@@ -524,7 +534,7 @@ func genC07(g *genCtx) {
 		case 4:
 			e = par(r.pick([]string{num(), str(), boo(), set()})) + " " + r.pick([]string{"and", "or"}) + " " + par(r.pick([]string{num(), str(), boo(), set()}))
 		case 5:
-			e = "not(" + par(r.pick([]string{boo(), set()})) + ") " + r.pick([]string{"and", "or"}) + " " + par(boo())
+			e = "not(" + par(r.pick([]string{boo(), set(), num(), str()})) + ") " + r.pick([]string{"and", "or"}) + " " + par(boo())
 		default:
 			e = par(par(num())+" "+r.pick(cmpOps)+" "+par(num())) + " " + r.pick([]string{"and", "or"}) + " " + par(par(str())+" = "+par(set()))
 		}
@@ -811,6 +821,20 @@ func genC09(g *genCtx) {
 	for i := 0; i < g.scale(30000, 300000); i++ {
 		d := pool[r.intn(len(pool))]
 		g.add(&Case{Kind: "eval", Doc: d, Ctx: pickNodeCtx(r, d), Expr: genStrExpr(r, r.intn(4))})
+	}
+	// node-sets in either argument position of contains / starts-with / ends-with (string-value of the first node, ""
+	// for an empty node-set)
+	for i := 0; i < g.scale(3000, 30000); i++ {
+		d := pool[r.intn(len(pool))]
+		a := func() string {
+			return r.pick([]string{genFlatPath(r), genFlatPath(r), genStrLit(r), "string(" + genFlatPath(r) + ")", "zzz", "@zz"})
+		}
+		f := r.pick([]string{"contains", "starts-with", "ends-with"})
+		e := f + "(" + a() + ", " + a() + ")"
+		if r.chance(1, 4) {
+			e = "concat(string(" + e + "), '|', string(" + r.pick([]string{"contains", "starts-with", "ends-with"}) + "(" + a() + ", " + a() + ")))"
+		}
+		g.add(&Case{Kind: "eval", Doc: d, Ctx: pickNodeCtx(r, d), Expr: e})
 	}
 	// white space is space, tab, CR, LF — not VT, FF or the Unicode spaces (known finding: normalize-space takes
 	// Go's unicode.IsSpace; the other functions treat these characters as ordinary ones)
